@@ -285,6 +285,10 @@ pub fn size_sweep(quick: bool) -> Vec<Req> {
     let long_key = qvlib::wire::wname_from_labels(&[&l63[..], &l63[..], &l63[..], &vec![b'k'; 61][..]]);
     let sha256 = Alg::Sha256.wire_name();
     let unknown_alg = wname("hmac-md5.sig-alg.reg.int.");
+    // time signed of correctly signed requests: the server's (virtual) time,
+    // or far outside the fudge window (the reply is then a *signed* BADTIME
+    // one, whose TSIG RR carries 6 octets of other data)
+    let stale = std::cell::Cell::new(false);
     let mut push = |desc: String, qlen: usize, klen: usize, alg: &[u8], opt: Option<u16>, signed: Option<&[u8]>| {
         let qname = name_of_len(qlen, b'q');
         let mut b = MsgBuilder::query(0x5153).question(&qname, t::A, c::IN);
@@ -293,7 +297,7 @@ pub fn size_sweep(quick: bool) -> Vec<Req> {
         }
         let msg = b.build();
         let bytes = match signed {
-            Some(key_name) => reftsig::sign_request(&msg, key_name, Alg::Sha256, &sha256, KEY1_SECRET, TSIG_TIME, 300, None).0,
+            Some(key_name) => reftsig::sign_request(&msg, key_name, Alg::Sha256, &sha256, KEY1_SECRET, if stale.get() { TSIG_TIME - 1_000_000 } else { TSIG_TIME }, 300, None).0,
             None => {
                 let key = name_of_len(klen, b'k');
                 let rd = reftsig::tsig_rdata(alg, TSIG_TIME, 300, &[0xab; 32], 0x5153, 0, &[]);
@@ -355,5 +359,18 @@ pub fn size_sweep(quick: bool) -> Vec<Req> {
         push(format!("qname=255 signed key=255-octet opt={p}"), 255, 0, &sha256, Some(p), Some(&long_key));
         push(format!("qname=200 signed key=255-octet opt={p}"), 200, 0, &sha256, Some(p), Some(&long_key));
     }
+    // (4) correctly signed but stale requests (signed BADTIME replies): every
+    // QNAME length, both keys; and the advertised size swept for two lengths
+    stale.set(true);
+    for ql in 3..=255usize {
+        for opt in [None, Some(512u16), Some(700)] {
+            push(format!("qname={ql} signed-stale key=k1. opt={opt:?}"), ql, 0, &sha256, opt, Some(&wname(KEY1_NAME)));
+            push(format!("qname={ql} signed-stale key=255-octet opt={opt:?}"), ql, 0, &sha256, opt, Some(&long_key));
+        }
+    }
+    for p in (560..=700u16).step_by(if quick { 2 } else { 1 }) {
+        push(format!("qname=255 signed-stale key=255-octet opt={p}"), 255, 0, &sha256, Some(p), Some(&long_key));
+    }
+    stale.set(false);
     out
 }
